@@ -142,6 +142,18 @@ var properties = map[string]*Property{
 			"string methods: Index/Slice/Len are compared over an uninterpreted model of strings (same indexing function on both sides)",
 		},
 	},
+	"C13": {
+		ID:    "C13",
+		Title: "Interrupting running code stops it promptly and leaves the interpreter usable",
+		Units: []Unit{
+			{Kind: "funcs", Pkg: "fast", Funcs: []string{"(*Run).interrupt", "spinInterrupt", "(*Run).applyAsyncSignal", "restore"}},
+		},
+		NotCovered: []string{
+			"promptness: that the executor polls the signal after a bounded number of statements (the unrolled loops of Code.Exec and reExecWithFlags) - a bound on a run, not a property of one call",
+			"asynchronous delivery (the flag is written by another goroutine: data race and memory model are outside the sequential model)",
+			"that the interpreter keeps its definitions afterwards is the subject of C12 (every exit restores the bookkeeping), claimed there",
+		},
+	},
 	"C15": {
 		ID:    "C15",
 		Title: "A failed evaluation leaves earlier definitions intact",
